@@ -231,8 +231,13 @@ def run(rep, tier, seed, replay):
             viol = [("oracle-parse", "implementation output not understood: %r" % (e,))]
         for kl, _ in viol:
             klass_seen[kl] += 1
+        # at most 3 replay files per violation class, so that one class cannot crowd out another
+        # (Report keeps 20 in all); every hit is still counted in oracle_classes_seen
+        viol = [(kl, tx) for kl, tx in viol if klass_seen[kl] <= 3]
         if m != o:
             mism += 1
+            if mism > 6 and not viol:
+                continue
             if viol:
                 kl, text = viol[0]
                 rep.violation("model and implementation differ AND the property fails on the implementation: " + text,
